@@ -69,6 +69,9 @@ func (fr *FnRun) instr(st *State, in ssa.Instruction, depth int) {
 	case *ssa.FieldAddr:
 		p := fr.ptr(st, x.X)
 		fr.oblige(st, "nil", fr.ordOf(in), Not(p.Nil), nil, "pointer dereference "+x.X.Name()+"."+fieldName(x))
+		if p.Nil.IsTrue() || p.Obj == nil {
+			panic(pathStop{})
+		}
 		st.assume(Not(p.Nil))
 		st.vals[x] = &PtrV{Nil: tFalse, Obj: p.Obj, Path: appendPath(p.Path, PathElem{Field: x.Field}), Elem: x.Type().(*types.Pointer).Elem()}
 	case *ssa.Field:
@@ -106,6 +109,9 @@ func (fr *FnRun) instr(st *State, in ssa.Instruction, depth int) {
 	case *ssa.Store:
 		p := fr.ptr(st, x.Addr)
 		fr.oblige(st, "nil", fr.ordOf(in), Not(p.Nil), nil, "store through pointer "+x.Addr.Name())
+		if p.Nil.IsTrue() || p.Obj == nil {
+			panic(pathStop{})
+		}
 		st.assume(Not(p.Nil))
 		if p.ViewOf != nil {
 			panic(abortf("store of a single byte through a byte view"))
@@ -220,6 +226,9 @@ func (fr *FnRun) unop(st *State, x *ssa.UnOp) Val {
 	case token.MUL:
 		p := fr.ptr(st, x.X)
 		fr.oblige(st, "nil", fr.ordOf(x), Not(p.Nil), nil, "load through pointer "+x.X.Name())
+		if p.Nil.IsTrue() || p.Obj == nil {
+			panic(pathStop{}) // definitely nil: the obligation above fails if this point is reachable
+		}
 		st.assume(Not(p.Nil))
 		if p.ViewOf != nil {
 			return fr.viewByte(st, p.ViewOf, p.ViewIdx)
